@@ -8,6 +8,7 @@ import (
 	"net"
 	"net/http"
 	"sort"
+	"strconv"
 	"strings"
 	"sync"
 	"testing"
@@ -235,10 +236,14 @@ type fakeProvider struct {
 func (p *fakeProvider) Provide(addr string) blobclient.Client { return &fakeOrigin{addr: addr, p: p} }
 
 // judgeContacts applies the part of the oracle shared by both clients. contacted = hosts in the order
-// they were contacted (one entry per request sent). okHost says whether a host answers successfully,
-// netHost whether it fails at network level.
+// they were contacted (one entry per request sent).
+//
+// A contact is one request sent; final(i) says whether contact i was answered with a successful answer that
+// completes the whole request (for a multi-page listing only the page without a next link does), netFail(i)
+// whether contact i failed at network level. For hosts with one fixed outcome these are functions of the
+// host alone; for paginated listings and hosts that go away mid-request they are per contact.
 func judgeContacts(what string, limit int, list stringset.Set, resolved []stringset.Set, contacted []string,
-	okHost, netHost func(string) bool, err error) (string, []string) {
+	final, netFail func(i int) bool, err error) (string, []string) {
 
 	ctx := func() string {
 		return fmt.Sprintf("%s: list(%d)=%v contacted=%v err=%v", what, len(list), sorted(list), contacted, err)
@@ -267,22 +272,28 @@ func judgeContacts(what string, limit int, list stringset.Set, resolved []string
 		}
 		return "", []string{"empty-list"}
 	}
-	// A request is over once a host answered it successfully.
+	// A request is over once a host answered it successfully (and completely).
 	sawOK := false
-	for _, h := range contacted {
+	for i := range contacted {
 		if sawOK {
 			return "contacted another host after one had answered successfully\n" + ctx(), nil
 		}
-		if okHost(h) {
+		if final(i) {
 			sawOK = true
 		}
 	}
 	if sawOK && err != nil {
 		return "a host answered successfully but the request reported failure\n" + ctx(), nil
 	}
+	// "Every tried host failed at network level" = the last thing heard from each tried host is a network
+	// failure (a host may have served some pages of a listing before it went away).
+	lastNet := map[string]bool{}
+	for i, h := range contacted {
+		lastNet[h] = netFail(i)
+	}
 	allNet := true
-	for _, h := range contacted {
-		if !netHost(h) {
+	for _, n := range lastNet {
+		if !n {
 			allNet = false
 		}
 	}
@@ -326,8 +337,9 @@ func runLoc(c LocCase) pbt.Verdict {
 		cluster := &recList{}
 		cluster.set(l)
 		locs, err := blobclient.Locations(p, cluster, d)
-		msg, cl := judgeContacts(fmt.Sprintf("request %d blobclient.Locations", i), 3, cluster.cur, cluster.resolved, p.contacted,
-			func(h string) bool { return behav[h] != bNet }, func(h string) bool { return behav[h] == bNet }, err)
+		contacted := p.contacted
+		msg, cl := judgeContacts(fmt.Sprintf("request %d blobclient.Locations", i), 3, cluster.cur, cluster.resolved, contacted,
+			func(k int) bool { return behav[contacted[k]] != bNet }, func(k int) bool { return behav[contacted[k]] == bNet }, err)
 		if msg != "" {
 			return pbt.Fail("%s", msg)
 		}
@@ -367,67 +379,155 @@ const (
 	mReplicate
 	mOrigin
 	mCheckReadiness // single attempt
+	mListWithPagination
+	mListRepositoryWithPagination
 	nMethods
 )
 
-var methodNames = []string{"Put", "PutAndReplicate", "Get", "Has", "List", "ListRepository", "Replicate", "Origin", "CheckReadiness"}
+var methodNames = []string{"Put", "PutAndReplicate", "Get", "Has", "List", "ListRepository", "Replicate", "Origin", "CheckReadiness",
+	"ListWithPagination", "ListRepositoryWithPagination"}
+
+const maxPages = 12
 
 type TagCall struct {
 	Method int   `json:"m"`
 	List   []int `json:"list"`
+	// Pages is the number of pages the servers cut a listing into (every page but the last carries a next
+	// link); 0 and 1 both mean a single page. Only listing methods look at it. For the *WithPagination
+	// methods Offset is the page asked for.
+	Pages  int `json:"pages,omitempty"`
+	Offset int `json:"offset,omitempty"`
 }
 
 type TagCase struct {
-	Behav []int     `json:"behav"` // per host of the universe
+	Behav []int `json:"behav"` // per host of the universe
+	// Die, when present, gives per host the number of requests of one call it still serves according to
+	// Behav before it goes away (every later request of that call fails at network level); 0 = stays.
+	Die   []int     `json:"die,omitempty"`
 	Calls []TagCall `json:"calls"`
+}
+
+func isListing(m int) bool {
+	return m == mList || m == mListRepository || m == mListWithPagination || m == mListRepositoryWithPagination
 }
 
 func genTag(t *rapid.T) TagCase {
 	u := rapid.IntRange(0, 30).Draw(t, "universe")
 	c := TagCase{Behav: genBehav(t, u, []int{bOK, bOK, bOK, b404, b500, b503})}
+	// Hosts that go away in the middle of a request (only a multi-page listing sends a host more than one
+	// request, so only there it matters).
+	if dieBias := rapid.SampledFrom([]int{0, 0, 3, 7}).Draw(t, "dieBias"); dieBias > 0 {
+		c.Die = make([]int, u)
+		for h := range c.Die {
+			if rapid.IntRange(0, 9).Draw(t, "dies") < dieBias {
+				c.Die[h] = rapid.IntRange(1, 4).Draw(t, "dieAfter")
+			}
+		}
+	}
 	n := rapid.IntRange(1, 5).Draw(t, "calls")
 	for i := 0; i < n; i++ {
-		m := rapid.SampledFrom([]int{mPut, mPutAndReplicate, mGet, mHas, mList, mListRepository, mReplicate, mOrigin, mCheckReadiness, mCheckReadiness, mCheckReadiness}).Draw(t, "m")
-		c.Calls = append(c.Calls, TagCall{Method: m, List: genList(t, u)})
+		m := rapid.SampledFrom([]int{mPut, mPutAndReplicate, mGet, mHas, mList, mList, mListRepository, mListRepository, mReplicate, mOrigin,
+			mListWithPagination, mListRepositoryWithPagination, mCheckReadiness, mCheckReadiness, mCheckReadiness}).Draw(t, "m")
+		call := TagCall{Method: m, List: genList(t, u)}
+		if isListing(m) {
+			call.Pages = rapid.SampledFrom([]int{1, 2, 3, 4, 5, 6, 8, maxPages}).Draw(t, "pages")
+			if m == mListWithPagination || m == mListRepositoryWithPagination {
+				call.Offset = rapid.IntRange(0, call.Pages-1).Draw(t, "offset")
+			}
+		}
+		c.Calls = append(c.Calls, call)
 	}
 	return c
 }
 
+// Outcome of one contact (one request sent).
+const (
+	oNet    = iota // failed at network level
+	oOK            // 200; for a listing: the last page (no next link)
+	oOKMore        // 200 listing page that carries a next link
+	oStatus        // HTTP error status
+)
+
 // scriptTransport stands in for the network: http.DefaultTransport is what the tag client's HTTP layer
-// uses when no TLS is configured. It records the host of every request sent.
+// uses when no TLS is configured. It records the host and the outcome of every request sent.
 type scriptTransport struct {
 	mu        sync.Mutex
 	behav     map[string]int
+	die       map[string]int // requests served per call before the host goes away; absent/0 = stays
+	pages     int            // pages of a listing during the current call
+	served    map[string]int // requests received per host during the current call
 	contacted []string
+	outcome   []int
+	malformed string // set when a listing request carried an offset the servers never handed out
 }
 
 const digestBody = "sha256:abababababababababababababababababababababababababababababababab"
 
+func (s *scriptTransport) reset(pages int) {
+	s.mu.Lock()
+	s.pages = pages
+	s.served = map[string]int{}
+	s.contacted = nil
+	s.outcome = nil
+	s.malformed = ""
+	s.mu.Unlock()
+}
+
 func (s *scriptTransport) RoundTrip(req *http.Request) (*http.Response, error) {
 	h := req.URL.Host
+	p := req.URL.Path
+	listing := strings.HasPrefix(p, "/list/") || strings.HasPrefix(p, "/repositories/")
+
 	s.mu.Lock()
-	s.contacted = append(s.contacted, h)
 	b, ok := s.behav[h]
+	s.served[h]++
+	if d := s.die[h]; d > 0 && s.served[h] > d {
+		b = bNet
+	}
+	status := map[int]int{bOK: 200, b404: 404, b500: 500, b503: 503}[b]
+	body := ""
+	out := oStatus
+	switch {
+	case !ok || b == bNet:
+		out = oNet
+	case status == 200:
+		out = oOK
+		switch {
+		case req.Method == http.MethodHead:
+		case strings.HasPrefix(p, "/tags/") && req.Method == http.MethodGet:
+			body = digestBody
+		case listing:
+			// The servers cut the listing into s.pages pages addressed by the offset token they hand
+			// out in the next link (tagmodels.ListResponse; the Links struct has no json tag).
+			page := 0
+			if o := req.URL.Query().Get("offset"); o != "" {
+				n, err := strconv.Atoi(o)
+				if err != nil || n < 0 || n >= s.pages {
+					s.malformed = fmt.Sprintf("%s %s", h, req.URL.String())
+					n = 0
+				}
+				page = n
+			}
+			if page+1 < s.pages {
+				out = oOKMore
+				body = fmt.Sprintf(`{"Links":{"next":"%s?offset=%d"},"size":1,"result":["repo:tag-%d"]}`, req.URL.EscapedPath(), page+1, page)
+			} else {
+				body = fmt.Sprintf(`{"size":1,"result":["repo:tag-%d"]}`, page)
+			}
+		case p == "/origin":
+			body = "origin-of-" + h
+		}
+	}
+	s.contacted = append(s.contacted, h)
+	s.outcome = append(s.outcome, out)
 	s.mu.Unlock()
+
 	if req.Body != nil {
 		io.Copy(io.Discard, req.Body)
 		req.Body.Close()
 	}
-	if !ok || b == bNet {
+	if out == oNet {
 		return nil, &net.OpError{Op: "dial", Net: "tcp", Err: errors.New("connect: connection refused")}
-	}
-	status := map[int]int{bOK: 200, b404: 404, b500: 500, b503: 503}[b]
-	body := ""
-	if status == 200 && req.Method != http.MethodHead {
-		p := req.URL.Path
-		switch {
-		case strings.HasPrefix(p, "/tags/") && req.Method == http.MethodGet:
-			body = digestBody
-		case strings.HasPrefix(p, "/list/") || strings.HasPrefix(p, "/repositories/"):
-			body = `{"size":1,"result":["repo:tag"]}`
-		case p == "/origin":
-			body = "origin-of-" + h
-		}
 	}
 	return &http.Response{
 		Status:        fmt.Sprintf("%d %s", status, http.StatusText(status)),
@@ -446,12 +546,13 @@ var transportMu sync.Mutex
 
 func runTag(c TagCase) pbt.Verdict {
 	u := len(c.Behav)
-	if u > 1000 || len(c.Calls) == 0 {
+	if u > 1000 || len(c.Calls) == 0 || (len(c.Die) != 0 && len(c.Die) != u) {
 		return pbt.Verdict{Discard: true}
 	}
 	var lists [][]int
 	for _, call := range c.Calls {
-		if call.Method < 0 || call.Method >= nMethods {
+		if call.Method < 0 || call.Method >= nMethods || call.Pages < 0 || call.Pages > 64 || call.Offset < 0 ||
+			(call.Offset > 0 && call.Offset >= call.Pages) {
 			return pbt.Verdict{Discard: true}
 		}
 		lists = append(lists, call.List)
@@ -468,7 +569,15 @@ func runTag(c TagCase) pbt.Verdict {
 	for h, b := range c.Behav {
 		behav[host(h)] = b
 	}
-	tr := &scriptTransport{behav: behav}
+	die := map[string]int{}
+	for h, d := range c.Die {
+		if d < 0 {
+			return pbt.Verdict{Discard: true}
+		}
+		die[host(h)] = d
+	}
+	tr := &scriptTransport{behav: behav, die: die}
+	tr.reset(1)
 	transportMu.Lock()
 	saved := http.DefaultTransport
 	http.DefaultTransport = tr
@@ -486,9 +595,11 @@ func runTag(c TagCase) pbt.Verdict {
 	nt := false
 	for i, call := range c.Calls {
 		hosts.set(call.List)
-		tr.mu.Lock()
-		tr.contacted = nil
-		tr.mu.Unlock()
+		pages := call.Pages
+		if pages < 1 || !isListing(call.Method) {
+			pages = 1
+		}
+		tr.reset(pages)
 		var err error
 		switch call.Method {
 		case mPut:
@@ -503,6 +614,16 @@ func runTag(c TagCase) pbt.Verdict {
 			_, err = cc.List("repo")
 		case mListRepository:
 			_, err = cc.ListRepository("repo")
+		case mListWithPagination, mListRepositoryWithPagination:
+			f := tagclient.ListFilter{}
+			if call.Offset > 0 {
+				f.Offset = strconv.Itoa(call.Offset)
+			}
+			if call.Method == mListWithPagination {
+				_, err = cc.ListWithPagination("repo", f)
+			} else {
+				_, err = cc.ListRepositoryWithPagination("repo", f)
+			}
 		case mReplicate:
 			err = cc.Replicate("repo:tag")
 		case mOrigin:
@@ -516,16 +637,29 @@ func runTag(c TagCase) pbt.Verdict {
 		}
 		tr.mu.Lock()
 		contacted := append([]string(nil), tr.contacted...)
+		outcome := append([]int(nil), tr.outcome...)
+		malformed := tr.malformed
 		tr.mu.Unlock()
 		what := fmt.Sprintf("call %d tagclient cluster %s", i, methodNames[call.Method])
+		if pages > 1 {
+			what += fmt.Sprintf(" (listing served in %d pages)", pages)
+		}
+		if malformed != "" {
+			// Harness precondition, not the property: every offset comes from a next link we served.
+			return pbt.Verdict{Discard: true}
+		}
+		// A whole-listing call (List / ListRepository) is answered only by the page without a next link;
+		// every other call, the one-page *WithPagination ones included, by any 200.
+		whole := call.Method == mList || call.Method == mListRepository
+		final := func(k int) bool { return outcome[k] == oOK || (outcome[k] == oOKMore && !whole) }
 		msg, cl := judgeContacts(what, limit, hosts.cur, hosts.resolved, contacted,
-			func(h string) bool { return behav[h] == bOK }, func(h string) bool { return behav[h] == bNet }, err)
+			final, func(k int) bool { return outcome[k] == oNet }, err)
 		if msg != "" {
 			return pbt.Fail("%s", msg)
 		}
+		distinct := stringset.FromSlice(contacted)
 		if limit == 1 && len(call.List) > 0 {
-			dist := stringset.FromSlice(contacted)
-			if len(dist) != 1 {
+			if len(distinct) != 1 {
 				return pbt.Fail("single-attempt call did not contact exactly one host\n%s: list=%v contacted=%v err=%v", what, sorted(hosts.cur), contacted, err)
 			}
 			classes["single-attempt"] = true
@@ -536,7 +670,40 @@ func runTag(c TagCase) pbt.Verdict {
 		for _, x := range cl {
 			classes[x] = true
 		}
-		if len(call.List) > limit && (limit == 1 || len(stringset.FromSlice(contacted)) > 1) {
+		// Shapes of multi-page listings reached.
+		morePages, died, restarted := 0, false, false
+		for k := range contacted {
+			if outcome[k] == oOKMore {
+				morePages++
+			}
+			if k > 0 && outcome[k] == oNet && outcome[k-1] == oOKMore && contacted[k] == contacted[k-1] {
+				died = true
+			}
+			if k > 0 && outcome[k-1] == oNet && contacted[k] != contacted[k-1] {
+				for j := 0; j < k; j++ {
+					if outcome[j] == oOKMore {
+						restarted = true
+					}
+				}
+			}
+		}
+		if whole && morePages > 0 {
+			classes["listing-spans-pages"] = true
+			if morePages >= 3 {
+				classes["listing-spans>=4-pages"] = true
+			}
+			if len(call.List) > limit {
+				classes["listing-spans-pages-on-list-larger-than-limit"] = true
+				nt = true
+			}
+			if died {
+				classes["host-went-away-mid-listing"] = true
+			}
+			if restarted {
+				classes["listing-restarted-on-another-host"] = true
+			}
+		}
+		if len(call.List) > limit && (limit == 1 || len(distinct) > 1) {
 			nt = true
 		}
 	}
@@ -555,11 +722,12 @@ func TestProp(t *testing.T) {
 		ID: "C25",
 		Rule: "part sample: sets of 0-30 hosts, 1-6 Sample(n) calls with n in 0..35 biased to 0 and to the set size; result must have min(n,size) members, all from the set, set unchanged. " +
 			"part locations: universe of 0-30 origins each scripted to fail or answer, 1-4 blobclient.Locations requests each on a drawn sub-list, through a recording Provider. " +
-			"part tagclient: universe of 0-30 build-index hosts each scripted (network error / 200 / 404 / 500 / 503), 1-5 calls of the real tagclient cluster client " +
-			"(Put, PutAndReplicate, Get, Has, List, ListRepository, Replicate, Origin = 3 attempts; CheckReadiness = 1) each on a drawn sub-list, network replaced by a recording http transport. " +
-			"Oracle per request: distinct hosts contacted <= 3 (exactly 1 for CheckReadiness on a non-empty list), all from the list resolved for that request, empty list => error without contact, " +
-			"nothing contacted after a successful answer and success reported then, failure reported when every contacted host failed at network level and then min(limit,size) distinct hosts were tried. " +
-			"An evaluation is one Sample call / one request; non-trivial = n < set size (sample) or a request on a list larger than its limit that needed a retry (or any single-attempt call on such a list); distinct by case hash",
+			"part tagclient: universe of 0-30 build-index hosts each scripted (network error / 200 / 404 / 500 / 503; optionally 'goes away after serving k=1..4 requests of a call'), 1-5 calls of the real tagclient cluster client " +
+			"(Put, PutAndReplicate, Get, Has, List, ListRepository, ListWithPagination, ListRepositoryWithPagination, Replicate, Origin = 3 attempts; CheckReadiness = 1) each on a drawn sub-list, network replaced by a recording http transport; " +
+			"for listing calls the servers cut the listing into 1-12 pages chained by next links, so one List/ListRepository request is a sequence of page requests. " +
+			"Oracle per request (= one client call, however many pages): distinct hosts contacted <= 3 (exactly 1 for CheckReadiness on a non-empty list), all from the list resolved for that request, empty list => error without contact, " +
+			"nothing contacted after the answer that completes the request (last page for whole listings) and success reported then, failure reported when every tried host ended in a network-level failure and then min(limit,size) distinct hosts were tried. " +
+			"An evaluation is one Sample call / one request; non-trivial = n < set size (sample) or a request on a list larger than its limit that needed a retry or walked more than one page (or any single-attempt call on such a list); distinct by case hash",
 		Assumptions: []string{
 			"the recording Provider / http.DefaultTransport replacement observe every host contact (the tag client uses http.DefaultTransport when no TLS config is given)",
 			"a host is 'contacted' when a request is sent to it; creating a client object for an address is not a contact",
